@@ -13,6 +13,10 @@ with five sub-checks (every case is one real call, judged by the float64 referen
                    d_k <= |sG|^2 e^|sG| / 2^k
     api-equal      ExpFlow(...)(v), ExpFlow.forward(v, inverse), .inv, .inverse(), SVF/SVFFD buffers equal
                    the functional call value for value
+    call-sequence  depth-2 model checking against hidden state: for every shape all ordered pairs [X, Y] of
+                   configurations (expv / ExpFlow x align_corners x dtype), plus other-shape, SVF, compose_flows, logv
+                   and other-steps/scale predecessors, are called one after the other in ONE process and every call is
+                   judged by the closed form (a stateless API must not remember earlier calls)
     smooth-inverse exp(v) o exp(-v) = id and exp(-v) o exp(v) = id (composition evaluated by the
                    reference's own multilinear interpolator) within A * S2(v) samples, S2 = sum over axes
                    of the largest second difference of v in samples (second order in the amplitude A),
@@ -50,7 +54,7 @@ ASSUMPTIONS = [
 ]
 MIN_NONTRIVIAL = {"quick": 2000, "thorough": 9000}
 MIN_OUTCOMES = {"quick": 6500, "thorough": 35000}
-MIN_SUB_TRACES = {"closed-form": 4000, "inverse-flag": 500, "convergence": 100, "api-equal": 500, "smooth-inverse": 40}
+MIN_SUB_TRACES = {"closed-form": 4000, "inverse-flag": 500, "convergence": 100, "api-equal": 500, "smooth-inverse": 40, "call-sequence": 200}
 
 C = 64.0
 EPS = {"f32": 2.0 ** -23, "f64": 2.0 ** -52}
@@ -560,12 +564,95 @@ def case_smooth(case) -> Result:
     return r
 
 
+
+# ---------------------------------------------------------------------------
+# call sequences: depth-2 model checking of the stateless API against hidden state
+def _cfg_name(c):
+    s = c["api"] + "[" + ("ac=T" if c["ac"] else "ac=F") + "," + c["dtype"] + f",steps={c['steps']},scale={c['scale']}"
+    if c.get("other_shape"):
+        s += ",other-shape"
+    return s + "]"
+
+
+def seq_program(shape):
+    """Ordered call sequences on one shape, executed one after the other in ONE process, in this order."""
+    shape = list(shape)
+    other = shape[:-1] + [shape[-1] + 1]
+    base = {"steps": 4, "scale": 1.0}
+    cfgs = [{"api": api, "ac": ac, "dtype": dt, **base} for api in ("expv", "ExpFlow") for ac in (True, False) for dt in ("f32", "f64")]
+    prog = [[x, y] for x in cfgs for y in cfgs]
+    for ac in (True, False):
+        prog.append([{"api": "expv", "ac": not ac, "dtype": "f32", **base, "other_shape": other}, {"api": "expv", "ac": ac, "dtype": "f32", **base}])
+        for pre in ("SVF.u", "compose_flows", "logv"):
+            prog.append([{"api": pre, "ac": not ac, "dtype": "f32", **base}, {"api": "expv", "ac": ac, "dtype": "f32", **base}])
+        # other steps / scale before (same flag and dtype)
+        prog.append([{"api": "expv", "ac": ac, "dtype": "f32", "steps": 2, "scale": 0.5}, {"api": "expv", "ac": ac, "dtype": "f32", "steps": 6, "scale": 1.0}])
+        prog.append([{"api": "ExpFlow", "ac": ac, "dtype": "f64", "steps": 6, "scale": 1.0}, {"api": "ExpFlow", "ac": ac, "dtype": "f64", "steps": 2, "scale": 0.5}])
+    return prog
+
+
+def seq_call(cfg, shape, seed):
+    """One call of a sequence, judged by the closed form. Returns (status, detail, outcome hash)."""
+    shape = tuple(cfg.get("other_shape") or shape)
+    D = len(shape)
+    ac, dtype, api, steps, scale = cfg["ac"], cfg["dtype"], cfg["api"], cfg["steps"], cfg["scale"]
+    G = generator("rot", D, seed)
+    flow = torch.tensor(fa.affine_field(G, shape, ac)[None], dtype=DT[dtype])
+    if api in ("compose_flows", "logv"):
+        from deepali.core.flow import compose_flows, logv
+
+        small = flow * 0.05
+        st, out = guarded((lambda: compose_flows(small, small, align_corners=ac)) if api == "compose_flows" else (lambda: logv(small, num_iters=2, align_corners=ac)))
+        if st == "raises":
+            return "raises=" + type(out).__name__, exc_text(out), 0
+        return "unjudged", "", h64(_np(out)) if isinstance(out, torch.Tensor) else 0
+    st, out = guarded(call_api, api, flow, shape, ac, scale, steps)
+    if st == "raises":
+        return "raises=" + type(out).__name__, exc_text(out), 0
+    if not isinstance(out, torch.Tensor) or tuple(out.shape) != tuple(flow.shape):
+        return "shape", f"{type(out).__name__} {getattr(out, 'shape', None)}", 0
+    o = _np(out)[0]
+    sG = scale * G
+    if not fa.ss_admissible(sG, steps, shape, ac):
+        return "unjudged", "", h64(o)
+    exp = fa.affine_field(fa.ss_closed(sG, steps), shape, ac)
+    tol = C * EPS[dtype] * (1 + steps) * fa.norm_inf(sG)
+    err = float(np.abs(o - exp).max())
+    if not np.isfinite(err) or err > tol:
+        return "mismatch", f"max |result - ((I+sG/2^k)^(2^k)-I)x| = {err:.3e} > tol {tol:.2e}", h64(o)
+    return "ok", "", h64(o)
+
+
+def case_call_sequence(case) -> Result:
+    """Every sequence of the program is executed in order in this process; every call that has a reference is
+    judged (a stateless API must give the fresh-process answer whatever was called before)."""
+    r = Result()
+    shape = tuple(case["shape"])
+    for seq in case["program"]:
+        names = [_cfg_name(c) for c in seq]
+        bad = False
+        for i, cfg in enumerate(seq):
+            st, detail, oh = seq_call(cfg, shape, case["seed"])
+            r.trans += 1
+            if oh:
+                r.outcomes.append(oh)
+            if st in ("ok", "unjudged"):
+                continue
+            bad = True
+            r.bad(f"C11/call-sequence/{'-then-'.join(names)}/call={i + 1}/{st}", f"{detail} (shape {shape}; call {i + 1} of the sequence {names}, earlier sequences of the program executed before it in the same process)")
+        r.judged += 1
+        if seq[0] != seq[-1] and not bad:
+            r.nontriv.append(h64("seq", case["shape"], names))
+    return r
+
+
 KINDS = {
     "closed-form": case_closed_form,
     "inverse-flag": case_inverse_flag,
     "api-equal": case_api_equal,
     "convergence": case_convergence,
     "smooth-inverse": case_smooth,
+    "call-sequence": case_call_sequence,
 }
 
 
@@ -608,12 +695,17 @@ def cases_of(shard):
                 for steps in bounds(tier)["smooth_steps"]:
                     for api, form in (("expv", "flag"), ("ExpFlow", "module.inverse"), ("SVF.u", "module.inverse")):
                         yield {**base, "which": which, "amp": amp, "steps": steps, "api": api, "form": form}
+    elif kind == "call-sequence":
+        yield {"kind": kind, "shape": list(shape), "seed": seed, "dtype": "mixed", "program": seq_program(shape)}
     else:
         raise KeyError(kind)
 
 
 def shards(tier: str, seed: int):
     out = []
+    for shape in shapes(tier):
+        # one process per shape: all ordered pairs of configurations are called one after the other
+        out.append({"tier": tier, "seed": seed, "kind": "call-sequence", "shape": list(shape), "ac": True, "dtype": "mixed"})
     for shape in shapes(tier):
         for ac in (True, False):
             for dtype in ("f32", "f64"):
@@ -641,7 +733,9 @@ def run_shard(shard) -> Acc:
         acc.trans(res.trans)
         for u in res.undef:
             acc.undef(u)
-        if res.judged or res.problems:
+        if case["kind"] == "call-sequence":
+            acc.trace("call-sequence", n=res.judged, depth=2)
+        elif res.judged or res.problems:
             acc.trace(case["kind"], depth=case.get("steps", 0) or 0)
         for o in res.outcomes:
             acc.outcome(o)
